@@ -64,10 +64,14 @@ func init() {
 		"strconv.AppendFloat": func(x *Exec, fn *ssa.Function, a []Value) Value {
 			f := a[1].(*smt.Term)
 			fm, prec, bits := a[2].(*smt.Term), a[3].(*smt.Term), a[4].(*smt.Term)
-			if !(fm.IsConst() && fm.U == 'g' && prec.IsConst() && prec.Int() == -1 && bits.IsConst() && bits.Int() == 64) {
-				panic(x.unsupported("strconv.AppendFloat with format other than ('g', -1, 64)"))
+			if !(fm.IsConst() && prec.IsConst() && bits.IsConst()) {
+				panic(x.unsupported("strconv.AppendFloat with symbolic format"))
 			}
-			return x.appendValues(a[0].(SliceV), types.Typ[types.Uint8], []Value{NumTok{F: f}})
+			tok := NumTok{F: f}
+			if !(fm.U == 'g' && prec.Int() == -1 && bits.Int() == 64) {
+				tok.Lossy = fmt.Sprintf("%c_%d_%d", byte(fm.U), prec.Int(), bits.Int())
+			}
+			return x.appendValues(a[0].(SliceV), types.Typ[types.Uint8], []Value{tok})
 		},
 		"strconv.Itoa": func(x *Exec, _ *ssa.Function, a []Value) Value {
 			t := a[0].(*smt.Term)
